@@ -4,5 +4,4 @@ CONSTANTS
   MaxSteps = 4
 SPECIFICATION Spec
 INVARIANTS CursorIn Shape WideIntact PendingWrapAtEdge
-VIEW View
 CHECK_DEADLOCK FALSE
